@@ -117,6 +117,9 @@ func (c *Config) GetKpasswdServers(realm string, tcp bool) (int, map[int]string,
 
 func randServOrder(ks []string) map[int]string {
 	kdcs := make(map[int]string)
+	// Work on a copy: the slice handed in is the configuration's own list of servers, which is shared
+	// between goroutines and must be neither reordered nor written to.
+	ks = append([]string(nil), ks...)
 	count := len(ks)
 	i := 1
 	if count > 1 {
